@@ -1141,6 +1141,16 @@ pub fn run_pair_only(
                     }
                     v.rule = "repo_sync_not_done".to_string();
                 }
+                if *variant == "fail"
+                    && site.contains(":store:pending:")
+                    && site.contains("update_rrdp_if_needed")
+                    && (v.rule == "rrdp_update_not_done"
+                        || v.rule == "rsync_update_not_done")
+                {
+                    // The publication was stored, queueing the RRDP
+                    // update failed: the known finding of that name.
+                    v.rule = "rrdp_update_not_queued".to_string();
+                }
                 if profile.c09_mode && in_window {
                     // Consequence of the stored object set being ahead
                     // of the CA (see C08).
